@@ -86,8 +86,11 @@ def make(with_rst):
         tx = ts.instance(ULPITransmitTranslator)
         win = ts.instance(ULPIRegisterWindow)
         ctl = ts.instance(ULPIControlTranslator)
-        wf = ts.fsm("register_window.fsm_state")
-        tf = ts.fsm("transmit_translator.fsm_state")
+        # FSMs / registers of the real child instances (found by class), whatever UTMITranslator.elaborate calls the submodules
+        from .c10_unsupported_requests_stall import instance_fsm, instance_sig
+        wf = instance_fsm(ts, win)
+        tf = instance_fsm(ts, tx)
+        ctl_sig = lambda n: instance_sig(ts, ctl, n)
         dirb, nxtb, stpb, txv = B(I["dir"]), B(I["nxt"]), B(O["stp"]), B(I["tx_valid"])
         data_o = O["data_o"]
         cmd2 = bits(data_o, 7, 6)
@@ -143,11 +146,11 @@ def make(with_rst):
         treq = of(tx.ulpi_out_req) == 1
         cbusy = of(ctl.busy) == 1
         done = of(win.done) == 1
-        sh04, sh0a = ts.sig("control_translator.current_register_value_04"), ts.sig("control_translator.current_register_value_0a")
-        wv04, wv0a = ts.sig("control_translator.write_value_04"), ts.sig("control_translator.write_value_0a")
+        sh04, sh0a = ctl_sig("current_register_value_04"), ctl_sig("current_register_value_0a")
+        wv04, wv0a = ctl_sig("write_value_04"), ctl_sig("write_value_0a")
         fixed = bool(ts.find("requested_value_04"))
         if fixed:
-            rq04, rq0a = ts.sig("control_translator.requested_value_04"), ts.sig("control_translator.requested_value_0a")
+            rq04, rq0a = ctl_sig("requested_value_04"), ctl_sig("requested_value_0a")
         else:
             rq04, rq0a = req04, req0a
         wr04, wr0a = sh04 != rq04, sh0a != rq0a
